@@ -312,6 +312,25 @@ L_B:
   s_endpgm
 """
 
+# vector memory instructions executed with EXEC = 0 (no lane, no transaction), then a real load whose value is
+# consumed behind s_waitcnt: the wait counters must balance although nothing was issued for the masked ones
+K['k17_fully_masked_load_and_store_then_real_load'] = PRO + """
+  s_load_dwordx2 s[8:9], s[0:1], 0x0
+  s_waitcnt lgkmcnt(0)
+""" + gaddr('v9','v10','s8','s9') + gaddr('v7','v8','s4','s5') + """
+  s_mov_b64 s[14:15], exec
+  s_mov_b64 exec, 0
+  flat_load_dword v5, v[9:10]
+  flat_store_dword v[7:8], v0
+  s_mov_b64 exec, s[14:15]
+  flat_load_dword v5, v[9:10]
+  s_waitcnt vmcnt(0)
+  v_add_u32 v6, vcc, 5, v5
+  flat_store_dword v[7:8], v6
+  s_waitcnt vmcnt(0)
+  s_endpgm
+"""
+
 K['k15_uncoalesced_64_lines_per_load'] = PRO + """
   s_load_dwordx2 s[8:9], s[0:1], 0x0
   v_and_b32 v4, 63, v0
